@@ -39,13 +39,14 @@ ANCHORS = [
     "stereomolgraph.coords:handedness",
 ]
 REQUIRED_ANCHORS = ANCHORS
-REQUIRED = ["a1_molecules", "a2_molecules", "complexes", "complex:SquarePlanar", "complex:TrigonalBipyramidal", "complex:Octahedral", "complex:Tetrahedral", "tag:CW", "tag:CCW", "bond:Z", "bond:E", "molecules_over_256_atoms", "renumbered_before_embedding"]
+REQUIRED = ["a1_molecules", "a2_molecules", "complexes", "complex:SquarePlanar", "complex:TrigonalBipyramidal", "complex:Octahedral", "complex:Tetrahedral", "tag:CW", "tag:CCW", "bond:Z", "bond:E", "molecules_over_256_atoms", "renumbered_before_embedding", "import:lone_pair_stereo=False"]
 CASE_TIMEOUT = 180
 A2 = ["CS(=O)CC", "CN=CC", "CC(=NO)C", "C(F)(Cl)=C=C(F)Cl", "CC=NN", "C[S+]([O-])CC", "CP(C)CC", "FN=NF", "CC(C)=NC", "CS(=O)c1ccccc1"]
 
 
 def gen_cases(ctx):
     rng = ctx.rng
+    nsk = 0
     big = ["C/C=C/" + "C" * 110, "C/C=C\\" + "C" * 110, "C" * 50 + "/C=C\\" + "C" * 60, "C[C@H](F)" + "C" * 100 + "/C=C\\C", "F/C=C/" + "C" * 50 + "/C=C\\" + "C" * 50 + "/C=C/Cl"]
     for j in range(ctx.n(64, 400)):
         yield {"kind": "mol", "smiles": big[(j + ctx.shard) % len(big)], "eseed": 2 * rng.randrange(1, 50000) + 1, "relax": False, "big": True}
@@ -62,7 +63,8 @@ def gen_cases(ctx):
             yield {"kind": "mol", "smiles": iso[rng.randrange(len(iso))], "eseed": rng.randrange(1, 100000), "relax": rng.random() < 0.6, "random_molecule": True}
             continue
         if fam < 4:
-            skel = c12.SKELETONS[(i // 8 * 4 + fam) % len(c12.SKELETONS)]
+            skel = c12.SKELETONS[(nsk * ctx.nshards + ctx.shard) % len(c12.SKELETONS)]
+            nsk += 1
             iso = c12.isomers(skel)
             yield {"kind": "mol", "smiles": iso[rng.randrange(len(iso))], "eseed": rng.randrange(1, 100000), "relax": rng.random() < 0.4}
         elif fam == 4:
@@ -187,7 +189,17 @@ def _mol(ctx, case):
             ctx.count("bond:E")
     ctx.case((Chem.MolToSmiles(m), case["eseed"], case["relax"]), c12._n_stereo(m) >= 1)
     try:
-        g_rd = StereoMolGraph.from_rdmol(m)
+        lp = True
+        if (case["eseed"] // 2) % 3 == 0:
+            # the importer without lone-pair stereo: the mode in which three-coordinate N / P / S get no descriptor,
+            # as from coordinates; every four-coordinate centre (also N+, P+, S(VI), Si) keeps its label
+            from stereomolgraph.rdmol2graph import RDMol2StereoMolGraph
+
+            lp = False
+            g_rd = StereoMolGraph(RDMol2StereoMolGraph(use_atom_map_number=False, stereo_complete=True, resonance=True, lone_pair_stereo=False)(m))
+            ctx.count("import:lone_pair_stereo=False")
+        else:
+            g_rd = StereoMolGraph.from_rdmol(m)
         g_3d = StereoMolGraph.from_geometry(Geometry.from_xyz(Chem.MolToXYZBlock(m)))
     except Exception as e:  # noqa: BLE001
         ctx.violate(f"C14/route-raises:{type(e).__name__}/{fam}", f"{case['smiles']}: {e!r}", case)
